@@ -30,7 +30,7 @@ man = {
     "hooks": {
         "guard": "QXMPP_VERIF",
         "enable": "checks configure their own out-of-tree build of /repo with -DCMAKE_CXX_FLAGS=-DQXMPP_VERIF (see vlib.build_repo); no guarded source hook is needed so far",
-        "baseline_off_cmd": "cmake --build /repo/_build -j16 && ctest --test-dir /repo/_build -j8 --timeout 900",
+        "baseline_off_cmd": "cmake --build /repo/_build -j16 && (ctest --test-dir /repo/_build -j8 --timeout 900 || ctest --test-dir /repo/_build --rerun-failed --timeout 900)",
         "source_commits": [],
         "add_only": True,
     },
@@ -41,7 +41,7 @@ man = {
     }],
     "checks": checks,
     "not_applicable": na,
-    "notes": "See DESIGN.md. Every check rebuilds libQXmpp from /repo's working tree, re-checks the Lean theorems, audits axioms, runs the correspondence and the model-independent property oracle. known_findings.json lists genuine defects recorded or fixed.",
+    "notes": "See DESIGN.md. baseline_off_cmd re-runs failed tests once alone: tst_qxmppserver (recorded flaky) and tst_qxmpptransfermanager both listen on TCP port 12345 and clash when ctest schedules them in parallel; tst_qxmppiceconnection fails as in BASELINE.json. Every check rebuilds libQXmpp from /repo's working tree, re-checks the Lean theorems, audits axioms, runs the correspondence and the model-independent property oracle. known_findings.json lists genuine defects recorded or fixed.",
 }
 json.dump(man, open(os.path.join(ROOT, "MANIFEST.json"), "w"), indent=1)
 print("checks:", [c["property_id"] for c in checks], "not_applicable:", [n["property_id"] for n in na])
